@@ -92,8 +92,20 @@ def run(rep):
         cs.add(f"optraw {o} {mx} {tok}", o=o, mx=mx, tok=tok)
     ri = vlib.run_cases(impl, cs.lines)
     rep.evaluations += len(cs.lines)
-    for cid, m in cs.meta.items():
-        res, recs = e2e.split_result(ri.get(cid))
+    # the same calls with the timeout first seen expired at the k-th check of the clock: a trial that COMPLETED (its size was
+    # reported) stays a candidate, whatever the clock says afterwards
+    timed = vlib.Cases()
+    for cid, m in list(cs.meta.items())[: (60 if quick else 800)]:
+        res0, recs0 = e2e.split_result(ri.get(cid))
+        K = int(next((r[1] for r in parse_recs(recs0) if r[0] == "N"), "0"))
+        for kk in sorted({K - 1, K - 2, K - 3, K // 2, rng.randrange(K + 1)} if K > 0 else set()):
+            if kk >= 0:
+                timed.add(f"optraw {m['o']} {m['mx']} {m['tok']} {kk}", o=m["o"] + f" [expiry at check {kk}]", mx=m["mx"], tok=m["tok"])
+    rt = vlib.run_cases(impl, timed.lines)
+    rep.evaluations += len(timed.lines)
+    allcases = [(cid, m, ri.get(cid)) for cid, m in cs.meta.items()] + [(cid, m, rt.get(cid)) for cid, m in timed.meta.items()]
+    for cid, m, raw_res in allcases:
+        res, recs = e2e.split_result(raw_res)
         recl = parse_recs(recs)
         finals = {r[1] for r in recl if r[0] == "E" and r[4] == "1"}
         cand = {(r[1], r[2]): r[3] for r in recl if r[0] == "C"}
